@@ -1593,6 +1593,7 @@ type ccell struct {
 	alloc *ssa.Alloc // memory cell: field `field` of *alloc
 	field string
 	loop  *loopB
+	cr    *cellResolver
 }
 
 func (c *ccell) String() string {
@@ -1638,12 +1639,100 @@ func localStructCell(a *ssa.Alloc) bool {
 			if x.Addr != ssa.Value(a) {
 				return false
 			}
+		case *ssa.Call:
+			// the address handed to a repository helper that only reads/writes the fields through it
+			// (typically a method of the struct type)
+			if len(structAccessorsOfCall(a, x)) == 0 {
+				return false
+			}
 		case *ssa.DebugRef:
 		default:
 			return false
 		}
 	}
 	return true
+}
+
+// accessor: a call that hands the address of a private struct variable to a helper; param is the
+// helper's parameter standing for the variable.
+type accessor struct {
+	call   *ssa.Call
+	callee *ssa.Function
+	param  *ssa.Parameter
+}
+
+// structAccessorsOfCall returns the accessor roles of call c for variable a (empty when the call lets
+// the address escape: a dynamic or external callee, or a callee that uses the pointer for anything
+// but field loads and stores).
+func structAccessorsOfCall(a *ssa.Alloc, c *ssa.Call) []accessor {
+	cal := staticCallee(&c.Call)
+	if cal == nil || len(cal.Blocks) == 0 || cal.Pkg == nil || cal.Parent() != nil {
+		return nil
+	}
+	if pth := cal.Pkg.Pkg.Path(); pth != repoMod && !strings.HasPrefix(pth, repoMod+"/") {
+		return nil
+	}
+	var out []accessor
+	for i, arg := range c.Call.Args {
+		if arg != ssa.Value(a) {
+			continue
+		}
+		if i >= len(cal.Params) {
+			return nil
+		}
+		prm := cal.Params[i]
+		for _, r1 := range refs(prm) {
+			switch fa := r1.(type) {
+			case *ssa.FieldAddr:
+				for _, r2 := range refs(fa) {
+					switch y := r2.(type) {
+					case *ssa.Store:
+						if y.Addr != ssa.Value(fa) {
+							return nil
+						}
+					case *ssa.UnOp:
+						if y.Op != token.MUL {
+							return nil
+						}
+					case *ssa.DebugRef:
+					default:
+						return nil
+					}
+				}
+			case *ssa.DebugRef:
+			default:
+				return nil
+			}
+		}
+		out = append(out, accessor{c, cal, prm})
+	}
+	return out
+}
+
+// structAccessors lists the accessor calls of variable a.
+func structAccessors(a *ssa.Alloc) []accessor {
+	var out []accessor
+	for _, rf := range refs(a) {
+		if c, ok := rf.(*ssa.Call); ok {
+			out = append(out, structAccessorsOfCall(a, c)...)
+		}
+	}
+	return out
+}
+
+// accessorStores lists the stores the accessor's helper makes to field `field` of the variable.
+func accessorStores(ac accessor, field string) []*ssa.Store {
+	var out []*ssa.Store
+	for _, r1 := range refs(ac.param) {
+		if fa, ok := r1.(*ssa.FieldAddr); ok && fieldName(fa) == field {
+			for _, r2 := range refs(fa) {
+				if st, ok := r2.(*ssa.Store); ok && st.Addr == ssa.Value(fa) {
+					out = append(out, st)
+				}
+			}
+		}
+	}
+	return out
 }
 
 func wholeStores(a *ssa.Alloc) []*ssa.Store {
@@ -1674,6 +1763,102 @@ func fieldStores2(a *ssa.Alloc, field string) []*ssa.Store {
 type cellResolver struct {
 	prog  *Prog
 	loops map[*ssa.Function][]*loopB
+	// inl: for a composite path, the helper paths inlined at accessor calls (see expand)
+	inl map[*Path][]inlinedPath
+}
+
+// inlinedPath: at call `call` (on the composite path) the helper takes path `path`.
+type inlinedPath struct {
+	call *ssa.Call
+	path *Path
+}
+
+// expand turns each iteration path into composite paths: wherever the path calls a repository helper
+// that receives the address of a private struct variable of the loop's function (an accessor, e.g.
+// counters.add(pod)), the helper's own entry->return paths are inlined - their facts are added
+// (prefixed, so that they cannot clash) and their stores are seen by the cells. ok=false on cap.
+func (cr *cellResolver) expand(paths []*Path, cap int) ([]*Path, bool) {
+	if cr.inl == nil {
+		cr.inl = map[*Path][]inlinedPath{}
+	}
+	out := paths
+	changed := true
+	for round := 0; changed && round < 3; round++ {
+		changed = false
+		var next []*Path
+		for _, p := range out {
+			var target *ssa.Call
+			done := map[*ssa.Call]bool{}
+			for _, ip := range cr.inl[p] {
+				done[ip.call] = true
+			}
+			for _, b := range p.Blocks {
+				for _, in := range b.Instrs {
+					c, ok := in.(*ssa.Call)
+					if !ok || done[c] || target != nil {
+						continue
+					}
+					for _, arg := range c.Call.Args {
+						if a, isA := arg.(*ssa.Alloc); isA && len(structAccessorsOfCall(a, c)) > 0 && localStructCell(a) {
+							target = c
+						}
+					}
+				}
+			}
+			if target == nil {
+				next = append(next, p)
+				continue
+			}
+			changed = true
+			hps, _, ok := funcPaths(staticCallee(&target.Call), cap)
+			if !ok {
+				return nil, false
+			}
+			for i, hp := range hps {
+				q := &Path{Blocks: p.Blocks, Facts: factSet{}, k: p.k}
+				for kk, f := range p.Facts {
+					q.Facts[kk] = f
+				}
+				for _, f := range hp.Facts {
+					g := f
+					g.Key = fmt.Sprintf("inl%d@%p:%s", i, target, f.Key)
+					q.Facts[fkey(g)] = g
+				}
+				cr.inl[q] = append(append([]inlinedPath{}, cr.inl[p]...), inlinedPath{target, hp})
+				next = append(next, q)
+				if len(next) > cap {
+					return nil, false
+				}
+			}
+		}
+		out = next
+	}
+	return out, true
+}
+
+// mapArg expresses a value read inside an inlined helper in the caller's terms: a parameter of the
+// helper becomes the call's argument.
+func (cr *cellResolver) mapArg(p *Path, v ssa.Value) ssa.Value {
+	if cr == nil || cr.inl == nil {
+		return v
+	}
+	prm, ok := unwrap(v).(*ssa.Parameter)
+	if !ok {
+		return v
+	}
+	for _, ip := range cr.inl[p] {
+		if cal := staticCallee(&ip.call.Call); cal == prm.Parent() {
+			if i := paramIndex(prm); i >= 0 && i < len(ip.call.Call.Args) {
+				return ip.call.Call.Args[i]
+			}
+		}
+	}
+	return v
+}
+
+// pathCallFact is pathCallFact with the call's argument expressed in the caller's terms.
+func (cr *cellResolver) pathCallFact(p *Path, callee string, argIdx int, arg func(ssa.Value) bool) (pol, found bool, call *ssa.Call) {
+	return pathCallFact(p, callee, argIdx, func(v ssa.Value) bool { return arg(cr.mapArg(p, v)) })
 }
 
 func (cr *cellResolver) loopsOf(fn *ssa.Function) []*loopB {
@@ -1696,7 +1881,7 @@ func (cr *cellResolver) resolve(v ssa.Value, fn *ssa.Function) (*ccell, string) 
 	if ph, ok := v.(*ssa.Phi); ok {
 		for _, l := range cr.loopsOf(fn) {
 			if l.header == ph.Block() {
-				return &ccell{fn: fn, phi: ph, loop: l}, ""
+				return &ccell{fn: fn, phi: ph, loop: l, cr: cr}, ""
 			}
 		}
 		return nil, "value " + ph.Comment + " merges alternatives outside a loop header"
@@ -1727,22 +1912,28 @@ func (cr *cellResolver) resolveField(base ssa.Value, field string, fn *ssa.Funct
 		if !localStructCell(x) {
 			return nil, "the struct variable " + x.Comment + " escapes"
 		}
-		// a variable updated in a loop of this function?
-		var inLoop []*ssa.Store
+		// a variable updated in a loop of this function (directly, or by an accessor helper called in
+		// the loop)?
+		var inLoop []ssa.Instruction
 		loops := cr.loopsOf(fn)
 		for _, st := range fieldStores2(x, field) {
 			if loopOfBlock(loops, st.Block()) != nil {
 				inLoop = append(inLoop, st)
 			}
 		}
+		for _, ac := range structAccessors(x) {
+			if len(accessorStores(ac, field)) > 0 && loopOfBlock(loops, ac.call.Block()) != nil {
+				inLoop = append(inLoop, ac.call)
+			}
+		}
 		if len(inLoop) > 0 {
 			l := loopOfBlock(loops, inLoop[0].Block())
-			for _, st := range inLoop {
-				if loopOfBlock(loops, st.Block()) != l {
+			for _, in := range inLoop {
+				if loopOfBlock(loops, in.Block()) != l {
 					return nil, "field " + field + " is updated in several loops"
 				}
 			}
-			return &ccell{fn: fn, alloc: x, field: field, loop: l}, ""
+			return &ccell{fn: fn, alloc: x, field: field, loop: l, cr: cr}, ""
 		}
 		// otherwise a copy: exactly one whole-struct assignment and no field assignment
 		ws := wholeStores(x)
@@ -1786,12 +1977,22 @@ func (cr *cellResolver) resolveField(base ssa.Value, field string, fn *ssa.Funct
 // storesOnPath lists the stores to the memory cell executed on iteration path p, in order.
 func (c *ccell) storesOnPath(p *Path) []*ssa.Store {
 	var out []*ssa.Store
-	for _, b := range p.Blocks {
-		for _, in := range b.Instrs {
-			if st, ok := in.(*ssa.Store); ok {
-				if fa, ok := st.Addr.(*ssa.FieldAddr); ok && fa.X == ssa.Value(c.alloc) && fieldName(fa) == c.field {
-					out = append(out, st)
+	scan := func(blocks []*ssa.BasicBlock, base ssa.Value) {
+		for _, b := range blocks {
+			for _, in := range b.Instrs {
+				if st, ok := in.(*ssa.Store); ok {
+					if fa, ok := st.Addr.(*ssa.FieldAddr); ok && fa.X == base && fieldName(fa) == c.field {
+						out = append(out, st)
+					}
 				}
+			}
+		}
+	}
+	scan(p.Blocks, c.alloc)
+	if c.cr != nil && c.cr.inl != nil {
+		for _, ip := range c.cr.inl[p] {
+			for _, ac := range structAccessorsOfCall(c.alloc, ip.call) {
+				scan(ip.path.Blocks, ac.param)
 			}
 		}
 	}
@@ -1800,13 +2001,15 @@ func (c *ccell) storesOnPath(p *Path) []*ssa.Store {
 
 // previousValue reports whether v is a load of the cell that reads the value left by the previous
 // store (no other store to the cell between the load and st in st's block; the load is in st's block).
+// The cell is addressed through the same base as st (the variable, or the helper's parameter).
 func (c *ccell) previousValue(v ssa.Value, st *ssa.Store) bool {
+	base := st.Addr.(*ssa.FieldAddr).X
 	u, ok := stripIntConv(v).(*ssa.UnOp)
 	if !ok || u.Op != token.MUL || u.Block() != st.Block() {
 		return false
 	}
 	fa, ok := u.X.(*ssa.FieldAddr)
-	if !ok || fa.X != ssa.Value(c.alloc) || fieldName(fa) != c.field {
+	if !ok || fa.X != base || fieldName(fa) != c.field {
 		return false
 	}
 	between := false
@@ -1820,10 +2023,10 @@ func (c *ccell) previousValue(v ssa.Value, st *ssa.Store) bool {
 		}
 		if between {
 			if s2, isSt := in.(*ssa.Store); isSt {
-				if fa2, isFA := s2.Addr.(*ssa.FieldAddr); isFA && fa2.X == ssa.Value(c.alloc) && fieldName(fa2) == c.field {
+				if fa2, isFA := s2.Addr.(*ssa.FieldAddr); isFA && fa2.X == base && fieldName(fa2) == c.field {
 					return false
 				}
-				if s2.Addr == ssa.Value(c.alloc) {
+				if s2.Addr == base {
 					return false
 				}
 			}
@@ -1832,10 +2035,43 @@ func (c *ccell) previousValue(v ssa.Value, st *ssa.Store) bool {
 	return false
 }
 
+// accessorsInlined: every accessor call on the path that can write the cell has been inlined by expand
+// (otherwise its effect on the cell is unknown).
+func (c *ccell) accessorsInlined(p *Path) bool {
+	for _, b := range p.Blocks {
+		for _, in := range b.Instrs {
+			call, ok := in.(*ssa.Call)
+			if !ok {
+				continue
+			}
+			for _, ac := range structAccessorsOfCall(c.alloc, call) {
+				if len(accessorStores(ac, c.field)) == 0 {
+					continue
+				}
+				found := false
+				if c.cr != nil && c.cr.inl != nil {
+					for _, ip := range c.cr.inl[p] {
+						if ip.call == call {
+							found = true
+						}
+					}
+				}
+				if !found {
+					return false
+				}
+			}
+		}
+	}
+	return true
+}
+
 // delta: by how much the counter changes along iteration path p of its loop.
 func (c *ccell) delta(p *Path) (int64, bool) {
 	if c.phi != nil {
 		return c.loop.deltaOnPath(p, c.phi)
+	}
+	if !c.accessorsInlined(p) {
+		return 0, false
 	}
 	var d int64
 	for _, st := range c.storesOnPath(p) {
@@ -1862,6 +2098,9 @@ func (c *ccell) delta(p *Path) (int64, bool) {
 func (c *ccell) appends(p *Path) ([]ssa.Value, bool) {
 	if c.phi != nil {
 		return c.loop.appendsOnPath(p, c.phi)
+	}
+	if !c.accessorsInlined(p) {
+		return nil, false
 	}
 	var out []ssa.Value
 	for _, st := range c.storesOnPath(p) {
@@ -1924,6 +2163,12 @@ func allocFieldInit(a *ssa.Alloc, field string, l *loopB, ok func(ssa.Value) boo
 	}
 	for _, st := range fieldStores2(a, field) {
 		if !consider(st, ok(st.Val)) {
+			return false
+		}
+	}
+	// a helper that writes the field outside the loop makes the start value unknown
+	for _, ac := range structAccessors(a) {
+		if len(accessorStores(ac, field)) > 0 && (l == nil || !l.blocks[ac.call.Block()]) {
 			return false
 		}
 	}
@@ -2113,4 +2358,328 @@ func reachFromEntryAvoiding(fn *ssa.Function, target, avoid func(ssa.Instruction
 		}
 	}
 	return nil
+}
+
+// ---------------------------------------------------------------------------------------------
+// "field F of the element gets the value of parameter P": an engine that follows the element and the
+// value through helpers, parameter-object structs and copy-modify-store-back.
+
+// vframe is an activation: the root function or a helper entered from a call site of the frame above.
+type vframe struct {
+	fn   *ssa.Function
+	call *ssa.Call
+	up   *vframe
+}
+
+func (fr *vframe) depth() int {
+	n := 0
+	for f := fr; f.up != nil; f = f.up {
+		n++
+	}
+	return n
+}
+
+// structVar finds the local struct variable (and its frame) that holds the struct `base` denotes:
+// base is the address of a local struct, a pointer parameter bound to such an address, or the private
+// copy of a by-value struct parameter whose argument is the value of such a variable.
+func structVar(base ssa.Value, fr *vframe) (*ssa.Alloc, *vframe) {
+	for i := 0; i < 6; i++ {
+		switch x := base.(type) {
+		case *ssa.Alloc:
+			// private copy of a by-value parameter?
+			if p := wholeStructParam(x); p != nil && fr.up != nil {
+				base = p
+				continue
+			}
+			return x, fr
+		case *ssa.Parameter:
+			if fr.up == nil || x.Parent() != fr.fn {
+				return nil, nil
+			}
+			idx := paramIndex(x)
+			if idx < 0 || idx >= len(fr.call.Call.Args) {
+				return nil, nil
+			}
+			arg := fr.call.Call.Args[idx]
+			fr = fr.up
+			if u, ok := arg.(*ssa.UnOp); ok && u.Op == token.MUL {
+				base = u.X // passed by value: the variable it was loaded from
+			} else {
+				base = arg
+			}
+		default:
+			return nil, nil
+		}
+	}
+	return nil, nil
+}
+
+// fieldValueOf returns the single value assigned to field `field` of the struct variable al: its one
+// field assignment, or (when the variable is initialised as a whole from a composite literal built in
+// another variable and the field is not assigned afterwards) that literal's.
+func fieldValueOf(al *ssa.Alloc, field string, depth int) ssa.Value {
+	sts := fieldStores2(al, field)
+	if len(sts) == 1 {
+		return sts[0].Val
+	}
+	if len(sts) == 0 && depth < 3 {
+		if ws := wholeStores(al); len(ws) == 1 {
+			if u, ok := ws[0].Val.(*ssa.UnOp); ok && u.Op == token.MUL {
+				if src, isA := u.X.(*ssa.Alloc); isA {
+					return fieldValueOf(src, field, depth+1)
+				}
+			}
+		}
+	}
+	return nil
+}
+
+// vresolve follows v (a value of frame fr) towards the root frame: parameters become the call's
+// arguments; a field read from a parameter-object struct becomes the value assigned to that field of
+// the struct variable (exactly one assignment).
+func vresolve(v ssa.Value, fr *vframe) (ssa.Value, *vframe) {
+	for i := 0; i < 12 && v != nil; i++ {
+		switch x := v.(type) {
+		case *ssa.ChangeType:
+			v = x.X
+			continue
+		case *ssa.Parameter:
+			if fr.up != nil && x.Parent() == fr.fn {
+				if idx := paramIndex(x); idx >= 0 && idx < len(fr.call.Call.Args) {
+					v, fr = fr.call.Call.Args[idx], fr.up
+					continue
+				}
+			}
+		case *ssa.UnOp:
+			if x.Op == token.MUL {
+				if fa, ok := x.X.(*ssa.FieldAddr); ok {
+					if al, afr := structVar(fa.X, fr); al != nil && (afr != fr || al != fa.X) {
+						if fv := fieldValueOf(al, fieldName(fa), 0); fv != nil {
+							v, fr = fv, afr
+							continue
+						}
+					}
+				}
+				if al, ok := x.X.(*ssa.Alloc); ok {
+					// private copy of a (non-struct-field) by-value parameter, e.g. a metav1.Time
+					if p := wholeStructParam(al); p != nil {
+						v = p
+						continue
+					}
+				}
+			}
+		case *ssa.Field:
+			if p, ok := x.X.(*ssa.Parameter); ok {
+				if al, afr := structVar(p, fr); al != nil {
+					if fv := fieldValueOf(al, fieldName(x), 0); fv != nil {
+						v, fr = fv, afr
+						continue
+					}
+				}
+			}
+		}
+		break
+	}
+	return v, fr
+}
+
+// setEngine decides "on every relevant path, field `field` of the element gets the value of root
+// parameter val".
+type setEngine struct {
+	r           *Run
+	field       string
+	val         *ssa.Parameter
+	strAssume   map[*ssa.Parameter]string // root parameter == string constant is assumed
+	flagAssume  map[*ssa.Parameter]bool   // root bool parameter has this value
+	unlessEqual bool                      // paths on which the field is known to equal val already are exempt
+}
+
+func (e *setEngine) same(v ssa.Value, fr *vframe, p *ssa.Parameter) bool {
+	rv, rfr := vresolve(v, fr)
+	if rfr.up != nil {
+		return false
+	}
+	return rv == ssa.Value(p) || readsParam(rv, p)
+}
+
+// skip: the path contradicts the assumptions, or (unlessEqual) knows the field already holds val.
+func (e *setEngine) skip(p *Path, fr *vframe, isElemField func(ssa.Value) bool) bool {
+	for _, f := range p.Facts {
+		for prm, want := range e.flagAssume {
+			if e.same(f.V, fr, prm) && f.Pol != want {
+				return true
+			}
+		}
+		x, y, ok := eqOperands(f.V)
+		if !ok {
+			continue
+		}
+		for _, pair := range [][2]ssa.Value{{x, y}, {y, x}} {
+			if s, isS := constString(pair[1]); isS {
+				for prm, want := range e.strAssume {
+					if e.same(pair[0], fr, prm) && ((s == want) != f.Pol) {
+						return true
+					}
+				}
+			}
+			if e.unlessEqual && f.Pol && isElemField(pair[0]) && e.same(pair[1], fr, e.val) {
+				return true
+			}
+		}
+	}
+	return false
+}
+
+// check: paths of fn (frame fr) accepted by onPath; isElem recognises the element's address.
+func (e *setEngine) check(fr *vframe, isElem func(ssa.Value) bool, onPath func(*Path) bool) (all bool, n int, bad string) {
+	fn := fr.fn
+	paths, _, ok := funcPaths(fn, 5000)
+	e.r.paths += len(paths)
+	if !ok || fr.depth() > 3 {
+		return false, 0, "path cap exceeded"
+	}
+	isElemField := func(v ssa.Value) bool {
+		u, isU := v.(*ssa.UnOp)
+		if !isU || u.Op != token.MUL {
+			return false
+		}
+		fa, isFA := u.X.(*ssa.FieldAddr)
+		return isFA && fieldName(fa) == e.field && isElem(fa.X)
+	}
+	all = true
+	for _, p := range paths {
+		if (onPath != nil && !onPath(p)) || e.skip(p, fr, isElemField) {
+			continue
+		}
+		n++
+		done := false
+		for _, b := range p.Blocks {
+			for _, in := range b.Instrs {
+				switch x := in.(type) {
+				case *ssa.Store:
+					if fa, isFA := x.Addr.(*ssa.FieldAddr); isFA && fieldName(fa) == e.field && isElem(fa.X) && e.same(x.Val, fr, e.val) {
+						done = true
+					}
+					// copy-modify-store-back: the whole element is replaced by a helper's result
+					if isElem(x.Addr) {
+						if c, idx := callResult(x.Val); c != nil {
+							if sub := e.enter(fr, c); sub != nil && e.resultField(sub, idx, isElem) {
+								done = true
+							}
+						}
+					}
+				case *ssa.Call:
+					sub := e.enter(fr, x)
+					if sub == nil {
+						continue
+					}
+					for i, a := range x.Call.Args {
+						if i < len(sub.fn.Params) && isElem(a) {
+							pe := sub.fn.Params[i]
+							if good, m, _ := e.check(sub, func(v ssa.Value) bool { return v == ssa.Value(pe) }, nil); good && m > 0 {
+								done = true
+							}
+						}
+					}
+				}
+			}
+		}
+		if !done {
+			all = false
+			if bad == "" {
+				bad = "[" + shortFacts(p) + "]"
+			}
+		}
+	}
+	return all, n, bad
+}
+
+func (e *setEngine) enter(fr *vframe, c *ssa.Call) *vframe {
+	cal := staticCallee(&c.Call)
+	if cal == nil || len(cal.Blocks) == 0 || !e.r.Prog.IsRuleSite(cal) || fr.depth() >= 3 {
+		return nil
+	}
+	for f := fr; f != nil; f = f.up {
+		if f.fn == cal {
+			return nil
+		}
+	}
+	return &vframe{fn: cal, call: c, up: fr}
+}
+
+// resultField: every relevant path of the helper returns a struct (a local variable) whose field was
+// last assigned the value of val; a path that leaves the field as copied from the old element is
+// exempt only under unlessEqual when it knows the old value equals val.
+func (e *setEngine) resultField(fr *vframe, idx int, isElemOuter func(ssa.Value) bool) bool {
+	paths, _, ok := funcPaths(fr.fn, 5000)
+	e.r.paths += len(paths)
+	if !ok {
+		return false
+	}
+	// a field of a parameter that holds (a copy of) the old element
+	isOldElemField := func(v ssa.Value) bool {
+		var base ssa.Value
+		var name string
+		switch x := v.(type) {
+		case *ssa.UnOp:
+			if fa, isFA := x.X.(*ssa.FieldAddr); isFA && x.Op == token.MUL {
+				base, name = fa.X, fieldName(fa)
+			}
+		case *ssa.Field:
+			base, name = x.X, fieldName(x)
+		}
+		if base == nil || name != e.field {
+			return false
+		}
+		var p *ssa.Parameter
+		if al, isA := base.(*ssa.Alloc); isA {
+			p = wholeStructParam(al)
+		} else {
+			p, _ = base.(*ssa.Parameter)
+		}
+		if p == nil || p.Parent() != fr.fn {
+			return false
+		}
+		i := paramIndex(p)
+		if i < 0 || i >= len(fr.call.Call.Args) {
+			return false
+		}
+		if u, isU := fr.call.Call.Args[i].(*ssa.UnOp); isU && u.Op == token.MUL {
+			return isElemOuter(u.X)
+		}
+		return isElemOuter(fr.call.Call.Args[i])
+	}
+	n := 0
+	for _, p := range paths {
+		if e.skip(p, fr, isOldElemField) {
+			continue
+		}
+		n++
+		ret := returnOf(p.Blocks[len(p.Blocks)-1])
+		if ret == nil || idx >= len(ret.Results) {
+			return false
+		}
+		u, isU := ret.Results[idx].(*ssa.UnOp)
+		if !isU || u.Op != token.MUL {
+			return false
+		}
+		al, isA := u.X.(*ssa.Alloc)
+		if !isA {
+			return false
+		}
+		var last *ssa.Store
+		for _, b := range p.Blocks {
+			for _, in := range b.Instrs {
+				if st, isSt := in.(*ssa.Store); isSt {
+					if fa, isFA := st.Addr.(*ssa.FieldAddr); isFA && fa.X == ssa.Value(al) && fieldName(fa) == e.field {
+						last = st
+					}
+				}
+			}
+		}
+		if last == nil || !e.same(last.Val, fr, e.val) {
+			return false
+		}
+	}
+	return n > 0
 }
